@@ -222,3 +222,18 @@ func zzH_C12_detectors() {
 	detectZmodem(buf)
 	verifReach("scanned")
 }
+
+
+// the OSC52 scanner of the output pump on arbitrary bytes after the introducer, split across reads at any position
+func zzH_C12_osc52() {
+	n := verifBound("N")
+	buf := zzSymBytes12(verifNondetRange(0, 2))
+	buf = append(buf, "\x1b]52;"...)
+	buf = append(buf, zzSymBytes12(verifNondetRange(0, n))...)
+	f := &TrzszFilter{}
+	f.options.EnableOSC52 = true
+	cut := verifNondetRange(0, len(buf))
+	f.detectOSC52(buf[:cut])
+	f.detectOSC52(buf[cut:])
+	verifReach("osc52-scanned")
+}
